@@ -3,9 +3,9 @@
    The model (compare, canonical, is_valid, sort, ...) is Semver/Model.v; the declarative
    grammar (Version, render, numeral, val) and precedence (prec) are Semver/Spec.v.
    All statements quantify over ALL byte strings (str = list Z), without length bounds. *)
-From Coq Require Import List ZArith.
+From Coq Require Import List ZArith Permutation Sorted.
 From Verif.Base Require Import Bytes.
-From Verif.Semver Require Import Model Spec Proofs ProofsCompare ProofsGrammar ProofsPrec.
+From Verif.Semver Require Import Model Spec Proofs ProofsCompare ProofsGrammar ProofsPrec ProofsSort.
 
 (* ---- 1. Compare is a total preorder ------------------------------------------------------ *)
 
@@ -95,7 +95,11 @@ Print Assumptions C04_render_inj.
 
 Theorem C04_accessors_render :
   forall v : Version,
-    major (render v) = render_major v /    major_minor (render v) = render_major_minor v /    prerelease (render v) = render_pre (v_pre v) /    build (render v) = render_build (v_build v) /    canonical (render v) = render_canonical v.
+    major (render v) = render_major v /\
+    major_minor (render v) = render_major_minor v /\
+    prerelease (render v) = render_pre (v_pre v) /\
+    build (render v) = render_build (v_build v) /\
+    canonical (render v) = render_canonical v.
 Proof. exact accessors_render. Qed.
 Print Assumptions C04_accessors_render.
 
@@ -108,7 +112,8 @@ Print Assumptions C04_accessors_invalid.
 
 Theorem C04_canonical_version_spec :
   forall v,
-    (build v = B "+incompatible" -> canonical_version v = canonical v ++ B "+incompatible") /    (build v <> B "+incompatible" -> canonical_version v = canonical v).
+    (build v = B "+incompatible" -> canonical_version v = canonical v ++ B "+incompatible") /\
+    (build v <> B "+incompatible" -> canonical_version v = canonical v).
 Proof. exact canonical_version_spec. Qed.
 Print Assumptions C04_canonical_version_spec.
 
@@ -126,7 +131,8 @@ Definition C04_v1 : Version :=
 Definition C04_v2 : Version := mkVersion (mkV (B "1") (B "2") (B "0") ShortMinor [] []) eq_refl.
 Definition C04_v3 : Version := mkVersion (mkV (B "1") (B "0") (B "0") ShortMajor [] []) eq_refl.
 Example C04_version_examples :
-  render C04_v1 = B "v1.2.3-rc.1+meta.007" /\ render C04_v2 = B "v1.2" /\ render C04_v3 = B "v1" /  render_canonical C04_v2 = B "v1.2.0" /\ render_major_minor C04_v3 = B "v1.0".
+  render C04_v1 = B "v1.2.3-rc.1+meta.007" /\ render C04_v2 = B "v1.2" /\ render C04_v3 = B "v1" /\
+  render_canonical C04_v2 = B "v1.2.0" /\ render_major_minor C04_v3 = B "v1.0".
 Proof. repeat split; vm_compute; reflexivity. Qed.
 
 (* ---- 4. Compare is SemVer 2.0.0 section 11 precedence ---------------------------------------- *)
@@ -137,6 +143,38 @@ Proof. exact compare_spec. Qed.
 Print Assumptions C04_compare_spec.
 
 Example C04_prec_example :
-  prec C04_v3 C04_v2 = Lt /\ prec C04_v1 C04_v2 = Gt /  prec (mkV (B "1") (B "0") (B "0") Full [B "alpha"; B "1"] [])
+  prec C04_v3 C04_v2 = Lt /\ prec C04_v1 C04_v2 = Gt /\
+  prec (mkV (B "1") (B "0") (B "0") Full [B "alpha"; B "1"] [])
        (mkV (B "1") (B "0") (B "0") Full [B "alpha"; B "beta"] []) = Lt.
 Proof. repeat split; vm_compute; reflexivity. Qed.
+
+(* ---- 5. Sort ------------------------------------------------------------------------------------- *)
+
+(* ByVersion.Less is a strict total order on ALL strings *)
+Theorem C04_less_irrefl : forall a, less a a = false.
+Proof. exact less_irrefl. Qed.
+Print Assumptions C04_less_irrefl.
+
+Theorem C04_less_trans : forall a b c, less a b = true -> less b c = true -> less a c = true.
+Proof. exact less_trans. Qed.
+Print Assumptions C04_less_trans.
+
+Theorem C04_less_total : forall a b, a <> b -> less a b = true \/ less b a = true.
+Proof. exact less_total. Qed.
+Print Assumptions C04_less_total.
+
+Theorem C04_sort_spec :
+  forall l, Permutation l (sort l) /\ StronglySorted (fun a b => less b a = false) (sort l).
+Proof. exact sort_spec. Qed.
+Print Assumptions C04_sort_spec.
+
+(* any sorted permutation of l is [sort l]: an unstable sorting algorithm has no freedom *)
+Theorem C04_sort_unique :
+  forall l l', Permutation l l' -> StronglySorted (fun a b => less b a = false) l' -> l' = sort l.
+Proof. exact sort_unique. Qed.
+Print Assumptions C04_sort_unique.
+
+Example C04_sort_example :
+  sort [B "v1.0.0"; B "bad"; B "v1.0"; B "v1.0.0-rc.1"; B "v0.9+x"]
+  = [B "bad"; B "v0.9+x"; B "v1.0.0-rc.1"; B "v1.0"; B "v1.0.0"].
+Proof. vm_compute; reflexivity. Qed.
